@@ -108,8 +108,13 @@ struct Entries {
             }
             list.emplace_back("subgraphs", [](const G &g, int) {
                 std::unordered_set<VertexIndex> s;
-                for (unsigned v = 0; v < g.getSize(); v += 2)
-                    s.insert(v);
+                if (g.getSize() >= 24) { // large shared graphs: four vertices in five (more than 48 members from 66 vertices on)
+                    for (unsigned v = 0; v < g.getSize(); ++v)
+                        if (v % 5)
+                            s.insert(v);
+                } else
+                    for (unsigned v = 0; v < g.getSize(); v += 2)
+                        s.insert(v);
                 if (g.getSize() > 1)
                     s.insert(1);
                 uint64_t h = obsDigest(algorithms::getSubgraph(g, s));
